@@ -34,6 +34,8 @@ def run(tier="quick"):
     if u is None:
         raise facts.AnalysisBroken("conf.c not analysed")
     nw = R.check_wrap(chk, u, tables={"ctx_state_cnt", "fstate_cnt", "ctx_cnt"})
+    chk.rule("W2", "a counter compared `<=` with an 8/16-bit index is wider than that index (the search terminates when the table is full)")
+    chk.count("inclusive_narrow_bound_loops", R.check_counter_width(chk, [u], "W2"), floor=1)
     np3 = R.check_push_writes(chk, u, ["spifconf_register_context_state", "spifconf_register_fstate"])
     chk.count("push_write_sites", np3, floor=5)
     npop = R.check_parse_line_stack(chk, u)
